@@ -72,6 +72,10 @@ C['C17'] = dict(level=MC, engine='E2', design='§2 C17',
    technique='symbolic execution (symx) of the target solve after each enumerated history and history-free in the same path; z3 equality of the result terms under the path condition',
    text='All sequences of up to 3 distinct operations from {build+solve another model, solve another solver, register logs, clean logs, trace a step, re-solve, re-parse after another block} are executed before the target solve, whose exogenous and start values are symbolic; on every path the history-free solve is executed too and z3 shows every series value identical, the reported variable set exactly the block`s; FinalEquations of three zoo topologies are textually equal at six object-ID offsets.',
    note='Histories bounded to length 3 over the listed operations; values symbolic. Log files go to a scratch directory that is removed.')
+C['C11'] = dict(level=MC, engine='E2', design='§2 C11',
+   technique='symbolic execution (symx, z3 reals) of the unmodified solver on expansive/oscillating/erroring blocks with the step trace on; contraction => success with the default cap by exhaustive path exploration; invalid declarations enumerated',
+   text='Expansive, oscillating, quadratic, coupled, persistently and transiently erroring blocks are solved for two periods with symbolic start values/exogenous inputs and iteration caps 0-3(6): every path either returns with all series of length horizon+1 or raises ConvergenceError/ValueError after at most cap+1 traced sweeps with every already-solved period intact and all solved series of equal length. One-variable contractions x=A*x+B (|A|<=0.8) with symbolic B and start value are explored exhaustively under the default cap 400: no path fails. Every reserved name (keywords, builtins, math names, k, self, None) as variable or token and every ill-formed declaration listed in the property is rejected before numbers are produced (enumerated outcome checks).',
+   note='Contraction=>success is reached for ONE simultaneous variable only (the property says up to 12): stated as outside the claim. Sweep counts come from the public step trace. The invalid-declaration clause has no numeric input and is enumerated, not solver-decided.')
 PENDING = {}
 ALL = ['C%02d' % i for i in range(1, 21)]
 checks = []
